@@ -84,7 +84,10 @@ def large_scenarios(draw):
     """Payloads beyond typical buffer / preallocation / block thresholds."""
     sc = draw(scenarios())
     dtype = draw(st.sampled_from(["uint8", "uint16", "uint32", "float32"]))
-    cs = draw(st.sampled_from([32, 40, 64]))
+    # encoded payloads just above 64 KiB (and a few of ~256 KiB)
+    cs = {"uint8": 41, "uint16": 33, "uint32": 26, "float32": 26}[dtype]
+    if draw(st.integers(0, 7)) == 0:
+        cs = 64 if dtype == "uint8" else 40
     sc.update({"kind": "file", "dtype": dtype, "channels": 1,
                "encoding": draw(st.sampled_from(
                    ["raw", "raw", "compressed_segmentation"]))
@@ -530,7 +533,7 @@ def replay(ctx, case):
 
 SUBS = [
     Sub("fs_faults", run, replay, quick=140, thorough=2500, min_per_shard=4),
-    Sub("fs_large", run_large, replay, quick=14, thorough=300,
+    Sub("fs_large", run_large, replay, quick=42, thorough=600,
         min_per_shard=2),
     Sub("http_faults", run_http, replay, quick=40, thorough=800,
         min_per_shard=4),
